@@ -111,6 +111,7 @@ def _request(draw, cols, flags_ok, need_explicit):
     return dict(
         load=None if load is None else list(load),
         dtype=draw(st.sampled_from(['f4', 'f4', 'f8'])),
+        dtype_as=draw(st.sampled_from(['class', 'class', 'class', 'instance'])),  # np.float64 vs np.dtype('float64'), both documented
         lp=lp,
         lv=lv,
         colname='explicit' if need_explicit else draw(st.sampled_from(['auto', 'auto', 'explicit'])),
